@@ -307,6 +307,10 @@ def exec_case(case):
             if a.dtype == torch.bfloat16 and w._data.dtype == torch.int8 and case["inf"] % 16 == 0:
                 res = cut(ORIG["qbytes_int8pack_mm"], a, w._data, scales)
                 judge(out, f"route-int8pack/{tagbase}", case, res, refnb, magnb, x, w, want_shape, dtype)
+    # the operands are only read: the product of the dequantized operands is the same after the call
+    ref_after = cut(lambda: reference(x, w, b)[0])
+    if isinstance(ref_after, Raised) or not torch.equal(ref_after.nan_to_num(), ref.nan_to_num()):
+        out.fail(f"{entry}/{tagbase}/operands-modified", f"the operands dequantize to other values after the call than before it ({case['act']} x {case['wq']}, {case['dtype']})")
     taken = [k for k in ROUTES if ROUTES[k] != before.get(k, 0)]
     out.klass = [f"act-{xk}", f"w-{wk}", case["dtype"], f"entry-{entry}", f"mode-{case['mode']}"] + [f"route-{t}" for t in taken] + [
         "rows>16" if case["rows"] > 16 else "rows<=16", f"inf%16={case['inf'] % 16 == 0}", f"layout-{case['layout']}"]
